@@ -116,7 +116,10 @@ def preprocess_distibution_dict(
     res_dict: Dict[Union[str, Tuple[int, ...]], float] = {}
     for key, value in input_dict.items():
         if isinstance(key, str):
-            res_dict[tuple(map(int, key if "," not in key else key.split(",")))] = value
+            # "12," is a one-entry outcome (trailing comma, as in a Python 1-tuple)
+            res_dict[
+                tuple(map(int, key if "," not in key else key.rstrip(",").split(",")))
+            ] = value
         elif isinstance(key, tuple):
             res_dict[key] = value
         else:
@@ -246,8 +249,12 @@ def normalize_measurement_outcome_distribution(
 
 
 def change_tuple_dict_keys_to_comma_separated_integers(dict):
+    # A one-entry outcome gets a trailing comma: without any comma the text would be
+    # read back digit by digit, i.e. (12,) as (1, 2).
     return {
-        ",".join(map(str, key)) if isinstance(key, tuple) else key: value
+        (",".join(map(str, key)) + ("," if len(key) == 1 else ""))
+        if isinstance(key, tuple)
+        else key: value
         for key, value in dict.items()
     }
 
